@@ -269,6 +269,11 @@ class Exec:
                     m.add_reactions([R] if op["alone"] else [good, R] if op["good"] not in m.reactions else [R])
             except ValueError:
                 pass
+        elif k == "ctx_rename_one":
+            # a context of its own around the renaming of one gene: everything, the genes not involved included, must be back afterwards
+            from cobra.manipulation import rename_genes
+            with m:
+                rename_genes(m, {op["g"]: op["new"]})
         elif k == "ctx_rm_edit":
             # inside a context of its own: a reaction is removed, edited while it belongs to no model, and the context is left
             R = self.rxn(op["r"])
@@ -357,7 +362,7 @@ PROFILES = [
     None,                                                                                               # the general mix
     ["set_lb"] * 3 + ["set_ub"] * 3 + ["set_bounds"] * 3 + ["ratchet_up", "ratchet_down", "ko_rxn", "ko_gene", "ko_genes", "obj_coef", "set_dir"] + CTX,   # bounds on a focus reaction
     ["add_mets"] * 5 + ["sub_mets"] * 3 + ["imul", "set_bounds", "rm_mets", "add_model_mets", "set_obj"] + CTX,             # stoichiometry
-    ["set_rule"] * 4 + ["ko_gene"] * 2 + ["ko_genes", "remove_genes", "remove_genes", "rename_genes", "rename_genes", "rm_rxns", "add_rxns"] + CTX,  # genes and rules
+    ["set_rule"] * 4 + ["ko_gene"] * 2 + ["ko_genes", "remove_genes", "remove_genes", "rename_genes", "rename_genes", "ctx_rename_one", "ctx_rename_one", "rm_rxns", "add_rxns"] + CTX,  # genes and rules
     ["add_rxns"] * 3 + ["rm_rxns"] * 3 + ["readd_rxn"] * 2 + ["rename_rxn"] * 2 + ["rename_met", "ctx_add_rename", "ctx_add_rename", "add_boundary", "rm_mets", "add_model_mets", "set_obj", "obj_coef", "set_obj"] + CTX,  # structure and objective
     ["copy", "copy", "deepcopy", "pickle", "switch_solver", "set_bounds", "set_bounds", "ko_rxn", "ko_gene", "set_ub", "set_lb", "add_rxns", "rm_rxns", "obj_coef", "set_dir", "imul"] + CTX,   # life cycle: copies, pickles, solver switches between edits
     ["rm_rxns"] * 3 + ["ctx_rm_edit"] * 3 + ["detached_rule"] * 3 + ["detached_bounds"] * 2 + ["readd_rxn"] * 3 + ["build_str"] * 3 + ["add_rxns_badid"] * 2 + ["set_rule", "ko_gene", "add_rxns"] + CTX,   # objects outside the model, equations, refused identifiers
@@ -505,6 +510,10 @@ def gen_op(rng, ex: Exec, kinds=None, p_bad=0.12):
         if bad and rng.random() < 0.6:
             op["junk"] = rng.choice(["none", "int"])
         return op
+    if k == "ctx_rename_one":
+        if not gids:
+            return {"op": "slim_optimize"}
+        return {"op": k, "g": rng.choice(gids), "new": rng.choice([g for g in GIDS + ["gX"] if g not in gids] or ["gX"])}
     if k == "ctx_rm_edit":
         lb, ub = gen_bounds(rng)
         return {"op": k, "r": some_r(), "lb": lb, "ub": ub}
@@ -566,7 +575,7 @@ def gen_op(rng, ex: Exec, kinds=None, p_bad=0.12):
     if k == "rename_genes":
         if not gids:
             return {"op": k, "map": [[rng.choice(GIDS), rng.choice(GIDS)]]}
-        olds = rng.sample(gids, min(len(gids), rng.randint(1, 3)))
+        olds = rng.sample(gids, min(len(gids), rng.choice([1, 1, 1, 2, 3])))    # mostly one gene: the others must come through untouched
         # new names are ids no gene of the model has (renaming onto an existing gene or chains a->b, b->c are left out:
         # the documentation does not say what they mean)
         free = [g for g in GIDS + ["gX"] if g not in gids] or ["gX"]
